@@ -49,6 +49,11 @@ pub fn expected_table(st: &St) -> Vec<(u64, u32, Option<i32>)> {
         let Some(k) = s.reg_key else { continue };
         match &s.k {
             K::Ping(_) | K::Channel(_) => out.push((k as u64, mask_of(1, 0, true), None)),
+            K::Life(l) => {
+                if l.has_ping {
+                    out.push((k as u64 + 1, mask_of(1, 0, true), None));
+                }
+            }
             K::Generic(g) => out.push((k as u64, mask_of(g.reg_interest, g.reg_mode, g.oneshot_armed), Some(g.own.0.as_raw_fd()))),
             _ => {}
         }
